@@ -103,17 +103,28 @@ func (ru *c15Run) announce(list []c15Ann) error {
 	return nil
 }
 
-func (ru *c15Run) doReset() error {
+func (ru *c15Run) doReset(racing bool) error {
 	c := ru.c
 	if c.reset.Kind == "route-refresh" {
-		for i, ps := range c.peers {
-			if c.reset.Target != "all" && c.reset.Target != ps.Addr {
-				continue
-			}
-			for _, f := range ps.families() {
-				if err := ru.sps[i].sendMsg(bgp.NewBGPRouteRefreshMessage(f.Afi(), 0, f.Safi())); err != nil {
-					return err
+		// while route changes race the refresh, ask three times (a refresh is idempotent): more
+		// chances for a full re-advertisement to overlap the incremental fan-out
+		rounds := 1
+		if racing {
+			rounds = 3
+		}
+		for k := 0; k < rounds; k++ {
+			for i, ps := range c.peers {
+				if c.reset.Target != "all" && c.reset.Target != ps.Addr {
+					continue
 				}
+				for _, f := range ps.families() {
+					if err := ru.sps[i].sendMsg(bgp.NewBGPRouteRefreshMessage(f.Afi(), 0, f.Safi())); err != nil {
+						return err
+					}
+				}
+			}
+			if racing {
+				runtime.Gosched()
 			}
 		}
 		return nil
@@ -548,7 +559,7 @@ func c15RunA(t *testing.T, c *c15Case) (res c15AResult) {
 			return
 		}
 		res.readback = ru.readback()
-		if res.err = ru.doReset(); res.err != nil {
+		if res.err = ru.doReset(false); res.err != nil {
 			return
 		}
 	} else {
@@ -591,7 +602,7 @@ func c15RunA(t *testing.T, c *c15Case) (res c15AResult) {
 				return
 			}
 		}
-		res.err = ru.doReset()
+		res.err = ru.doReset(true)
 		wg.Wait()
 		if res.err != nil {
 			return
@@ -613,7 +624,7 @@ func c15RunA(t *testing.T, c *c15Case) (res c15AResult) {
 		sp.mu.Unlock()
 		helds[i] = sp.snapshot()
 	}
-	if res.err = ru.doReset(); res.err != nil {
+	if res.err = ru.doReset(false); res.err != nil {
 		return
 	}
 	synctest.Wait()
